@@ -120,6 +120,17 @@ class Table:
 
     def _handler(self, tag):
         log = self.log
+        if tag[1:].isdigit() and int(tag[1:]) % 3 == 2:
+            # every third handler is a work queue: an object that is called like a function and keeps what it was given (a list
+            # subclass) until the application has worked it off.  Whenever it is empty it is false in a boolean context
+            class WorkQueue(list):
+                def __call__(self, name, *rest):
+                    self.append(name)
+                    log.append((tag, tuple(bytes(c) for c in name)))
+            q = WorkQueue()
+            self.queues = getattr(self, 'queues', [])
+            self.queues.append(q)
+            return q
         if self.api == 'v2':
             def h(name, app_param, reply, ctx):
                 log.append((tag, tuple(bytes(c) for c in name)))
@@ -168,6 +179,8 @@ class Table:
                                                   DigestSha256Signer(for_interest=True)))
         self.face.deliver(_WIRES[key])
         self.loop.drain()
+        for q in getattr(self, 'queues', []):
+            del q[:]            # the application works its queues off
         return [(x[0], x[1]) if x[0] == 'validator' else (x[0],) for x in self.log]
 
     def detach(self, t, rep):
@@ -184,6 +197,8 @@ class Table:
         del self.log[:]
         if self.api == 'dispatcher':
             r = self.d.dispatch(comps(t), enc.InterestParam(), None)
+            for q in getattr(self, 'queues', []):
+                del q[:]
             res = list(self.log)
             if bool(r) != bool(res):
                 res.append(('return-value-mismatch', r))
@@ -198,6 +213,8 @@ class Table:
             wire = ts.tlv(0x64, ts.tlv(0x51, b'\x00' * 7 + b'\x09') + ts.tlv(0x62, b'\xaa\xbb') + ts.tlv(0x50, wire))
         self.face.deliver(wire)
         self.loop.drain()
+        for q in getattr(self, 'queues', []):
+            del q[:]            # the application works its queues off
         return list(self.log)
 
     def failures(self):
